@@ -202,6 +202,101 @@ fn gen(tier: &str, seed: u64, out: &mut dyn FnMut(String)) {
         if nd >= 2 { out(format!("chain {a} swapaxes=0=-1|swapaxes=-1=0")); out(format!("chain {a} rollaxis=-1=0|moveaxis=0=-1")); }
         if nd >= 3 { let rot: Vec<usize> = (0..nd).map(|k| (k + 1) % nd).collect(); let t = format!("transpose={}", show_list(&rot)); out(format!("chain {a} {}", vec![t; nd].join("|"))); }
     }
+
+    // ================================================================== robustness streams, part 2
+    // ---- (6) hidden state: pairs of shapes that a weak cache key confuses, executed back to back on a FRESH thread in both orders
+    //      (`pair`: A B A, then on another fresh thread B A B).  Keys covered: polynomial hashes of shape ++ axes with multipliers
+    //      31, 33, 37, 131, 257 (collision_shape_pairs), the element count, the multiset / sum of the lengths, lengths packed into
+    //      8 or 16 bits.  Besides, EVERY ordinary case up to 700 elements runs A-B-A against one such partner shape inside `exec`.
+    let steps2 = ["transpose=none", "swapaxes=0=1", "moveaxis=0=-1", "rollaxis=1=none", "transpose=0,1", "transpose=-1,0"];
+    let steps3 = ["transpose=none", "transpose=0,2,1", "transpose=1,2,0", "swapaxes=0=2", "moveaxis=0,1=2,0", "rollaxis=2=0", "transpose=2,0,1", "swapaxes=-1=1", "moveaxis=-1=0"];
+    let mut pairs = collision_shape_pairs();
+    for (a, b) in [(vec![2usize, 6], vec![3usize, 4]), (vec![4, 3], vec![3, 4]), (vec![1, 12], vec![12, 1]), (vec![2, 3, 4], vec![4, 3, 2]), (vec![2, 3, 4], vec![3, 4, 2]), (vec![6, 2, 2], vec![2, 2, 6]),
+                   (vec![2, 3], vec![2, 259]), (vec![3, 2], vec![259, 2]), (vec![2, 3, 2], vec![2, 259, 2]), (vec![1, 3], vec![1, 65539]), (vec![3, 1], vec![65539, 1]), (vec![2, 3], vec![2, 65539]), (vec![5, 7], vec![7, 5]), (vec![2, 2, 2, 3], vec![2, 2, 3, 2])] {
+        pairs.push((a, b));
+    }
+    for (pi, (sa, sb)) in pairs.iter().enumerate() {
+        let nd = sa.len();
+        let st: &[&str] = if nd == 2 { &steps2 } else { &steps3 };
+        let rot: Vec<usize> = (0..nd).map(|k| (k + 1) % nd).collect();
+        let extra = format!("transpose={}", show_list(&rot));
+        let mut chosen: Vec<String> = if thorough { st.iter().map(|x| x.to_string()).collect() } else { vec![st[pi % st.len()].to_string(), st[(pi / 2 + 3) % st.len()].to_string()] };
+        if nd > 3 || thorough { chosen.push(extra); }
+        chosen.dedup();
+        for c in chosen { if nd < 3 && c.contains('2') && !c.contains("-") { continue; } out(format!("pair {} {} {c}", centred(sa), centred(sb))); }
+    }
+    // ---- (8) exact lengths: every axis length 1..=300 in a non-leading and in a leading position; axis arguments that survive a
+    //      narrowing cast to u8 / u16 / u32 as a legal axis (c + 2^8, c + 2^16, c + 2^32, ...) must be refused
+    for l in 1..=300usize {
+        out(format!("transpose {} none", centred(&[2, l])));
+        out(format!("moveaxis {} 0 -1", centred(&[l, 3])));
+        if thorough || l % 3 == 0 { out(format!("transpose {} 1,2,0", centred(&[2, l, 2]))); out(format!("rollaxis {} 1 none", centred(&[3, l]))); }
+    }
+    for s in [vec![3usize], vec![2, 3], vec![2, 1, 3], vec![2, 3, 2, 2]] {
+        let (a, nd) = (tag(&s), s.len());
+        for c in 0..nd { for big in narrowing_images(c) { for neg in [false, true] {
+            let bad = if neg { -(big as isize) - 1 } else { big as isize };
+            out(format!("swapaxes {a} {bad} 0")); out(format!("swapaxes {a} 0 {bad}")); out(format!("rollaxis {a} {bad} none")); out(format!("rollaxis {a} 0 {bad}"));
+            out(format!("moveaxis {a} {bad} 0")); out(format!("moveaxis {a} 0 {bad}"));
+            let mut ax: Vec<isize> = (0..nd as isize).collect(); ax[c] = bad; out(format!("transpose {a} {}", show_list(&ax)));
+            // a refused call is directly followed by a valid one on the same thread
+            out(format!("transpose {a} none"));
+        } } }
+    }
+    // ---- (10) ranks 5..8 and axis lists with 3..6 entries in unsorted order and mixed spellings
+    let dims8 = [2usize, 1, 3, 2, 1, 2, 2, 1];
+    for nd in 4..=8usize {
+        let s: Vec<usize> = (0..nd).map(|k| dims8[(k + nd) % 8]).collect();
+        let a = centred(&s);
+        let sp = |rng: &mut Rng, x: usize| spell(x, nd, rng.below(2) == 0);
+        // three moved axes: every choice of three sources (ascending) against every ordering of three destinations
+        let trip: Vec<Vec<usize>> = boxes(&[nd, nd, nd]).into_iter().filter(|c| c[0] < c[1] && c[1] < c[2]).collect();
+        for (ti, src) in trip.iter().enumerate() {
+            if !thorough && nd > 5 && ti % 3 != 0 { continue; }
+            let dst = &trip[(ti * 7 + 3) % trip.len()];
+            for p in permutations(3) {
+                let (sv, dv): (Vec<isize>, Vec<isize>) = (src.iter().map(|&x| sp(&mut rng, x)).collect(), p.iter().map(|&k| sp(&mut rng, dst[k])).collect());
+                out(format!("moveaxis {a} {} {}", show_list(&sv), show_list(&dv)));
+            }
+        }
+        for _ in 0..(if thorough { 120 } else { 30 }) {
+            let k = 3 + rng.below((nd - 2).min(4));
+            let (ps, pd) = (rng.perm(nd), rng.perm(nd));
+            let (sv, dv): (Vec<isize>, Vec<isize>) = (ps[..k].iter().map(|&x| sp(&mut rng, x)).collect(), pd[..k].iter().map(|&x| sp(&mut rng, x)).collect());
+            out(format!("moveaxis {a} {} {}", show_list(&sv), show_list(&dv)));
+            let p = rng.perm(nd); let ax: Vec<isize> = p.iter().map(|&x| sp(&mut rng, x)).collect();
+            out(format!("transpose {a} {}", show_list(&ax)));
+            out(format!("chain {a} transpose={}|transpose={}", show_list(&ax), show_list(&inverse(&p))));
+            let (i, j) = (rng.below(nd), rng.below(nd));
+            out(format!("swapaxes {a} {} {}", sp(&mut rng, i), sp(&mut rng, j))); out(format!("rollaxis {a} {} {}", sp(&mut rng, i), sp(&mut rng, j)));
+        }
+        out(format!("transpose {a} none")); out(format!("chain {a} transpose=none|transpose=none"));
+    }
+    // ---- (7) huge shapes: 16 384 .. 140 000 elements (tile / block paths, an axis above 65 536, extents that are not multiples of
+    //      32).  The model answers the axis order (its transpose is a quadratic scatter), the elements come from the native gather,
+    //      which is validated against the model's full answer on every other case of this run (`audit`).
+    let mut huge = huge_shapes();
+    huge.extend(vec![vec![128, 129], vec![161, 103], vec![257, 256], vec![181, 182], vec![3, 5461], vec![33, 31, 17], vec![3, 4, 3, 4, 3, 4, 3, 5]]);
+    for (hi, s) in huge.iter().enumerate() {
+        let (a, nd) = (centred(s), s.len());
+        let mut calls: Vec<String> = vec!["transpose=none".into()];
+        if nd >= 2 {
+            // every rotation [k..nd, 0..k] in one of its spellings, the last axis first, the first axis last, a swap, a non-rotation
+            for k in 1..nd { if nd > 6 && k % 4 != 1 { continue; }
+                let rot: Vec<isize> = (0..nd).map(|i| spell((k + i) % nd, nd, (i + hi) % 3 == 0)).collect(); calls.push(format!("transpose={}", show_list(&rot))); }
+            calls.push("swapaxes=0=-1".into()); calls.push("moveaxis=0=-1".into()); calls.push("moveaxis=-1=0".into()); calls.push(format!("rollaxis={}=none", nd - 1));
+            calls.push("rollaxis=-1=1".into());
+            if nd >= 3 { calls.push("swapaxes=1=2".into()); calls.push(format!("moveaxis=0,1={},{}", nd - 1, nd - 2)); let p = rng.perm(nd); calls.push(format!("transpose={}", show_list(&p))); }
+        }
+        for (ci, c) in calls.iter().enumerate() {
+            if !thorough && hi >= 12 && ci % 2 == 1 { continue; }
+            out(format!("huge {a} {c}"));
+        }
+    }
+    // the model itself at the 2^14 threshold (2.2 s per case)
+    out(format!("transpose {} none", centred(&[130, 130])));
+    if thorough { out(format!("moveaxis {} 0 -1", centred(&[10, 11, 12, 13]))); out(format!("transpose {} none", centred(&[128, 129]))); out(format!("swapaxes {} 0 1", centred(&[129, 131]))); }
+    out("audit".into());
 }
 
 // ------------------------------------------------------------------------------------------------ executor
@@ -274,39 +369,266 @@ fn special_f64(t: i64) -> f64 {
     match t.rem_euclid(8) { 0 => -0.0, 1 => t as f64, 2 => f64::NAN, 3 => -(t as f64) - 0.5, 4 => f64::from_bits(1), 5 => 0.0, 6 => f64::NEG_INFINITY, _ => f64::from_bits(0xFFF8_0000_0000_0001) }
 }
 
+// ------------------------------------------------------------------------------------------------ native reference
+
+/// `normalize_axis` as the crate's `usize` arithmetic does it (a still-negative sum wraps to a huge value, which is out of range)
+fn norm(ax: isize, nd: usize) -> usize { if ax < 0 { (ax + nd as isize) as usize } else { ax as usize } }
+fn is_perm(o: &[usize], nd: usize) -> bool { o.len() == nd && { let mut seen = vec![false; nd]; o.iter().all(|&x| x < nd && !std::mem::replace(&mut seen[x], true)) } }
+fn distinct<T: PartialEq>(v: &[T]) -> bool { (0..v.len()).all(|i| (0..i).all(|j| v[i] != v[j])) }
+
+/// harness-native reference: the axis order a call asks for, written from the operation's DOCUMENTED meaning (output axis k is input
+/// axis order[k]); `Err(())` = the call is refused
+fn native_order(nd: usize, call: &Call) -> Result<Vec<usize>, ()> {
+    let o: Vec<usize> = match call {
+        Call::Transpose(None) => (0..nd).rev().collect(),
+        Call::Transpose(Some(ax)) => ax.iter().map(|&a| norm(a, nd)).collect(),
+        Call::Swapaxes(i, j) => { let (i, j) = (norm(*i, nd), norm(*j, nd)); if i >= nd || j >= nd { return Err(()); } let mut o: Vec<usize> = (0..nd).collect(); o.swap(i, j); o }
+        // the moved axis ends up at position `start`, the others keep their relative order
+        Call::Rollaxis(ax, st) => { let (ax, st) = (norm(*ax, nd), st.map_or(0, |s| norm(s, nd))); if ax >= nd || st >= nd { return Err(()); }
+            let mut o: Vec<usize> = (0..nd).filter(|&k| k != ax).collect(); o.insert(st, ax); o }
+        Call::Moveaxis(src, dst) => {
+            if !distinct(src) || src.len() != dst.len() { return Err(()); }
+            let (s, d): (Vec<usize>, Vec<usize>) = (src.iter().map(|&a| norm(a, nd)).collect(), dst.iter().map(|&a| norm(a, nd)).collect());
+            if !distinct(&s) || !distinct(&d) { return Err(()); }
+            if s.iter().all(|&x| x < nd) && d.iter().all(|&x| x < nd) {
+                // source axis s[i] lands at position d[i]; the axes that are not moved fill the free positions in their original order
+                let mut o: Vec<Option<usize>> = vec![None; nd];
+                for (x, y) in s.iter().zip(&d) { o[*y] = Some(*x); }
+                let mut rest = (0..nd).filter(|k| !s.contains(k));
+                o.into_iter().map(|e| e.or_else(|| rest.next()).unwrap()).collect()
+            } else {
+                // a destination beyond the rank is tolerated by the code (insert position clamped; used internally with destination = ndim)
+                let mut o: Vec<usize> = (0..nd).filter(|k| !s.contains(k)).collect();
+                let mut pairs: Vec<(usize, usize)> = d.into_iter().zip(s).collect(); pairs.sort();
+                for (y, x) in pairs { let at = y.min(o.len()); o.insert(at, x); }
+                o
+            }
+        }
+    };
+    if is_perm(&o, nd) { Ok(o) } else { Err(()) }
+}
+
+/// out[coordinates c] = in[coordinates c', c'[order[k]] = c[k]] — one division chain per output element, nothing clever
+fn native_gather(shape: &[usize], tags: &[i64], order: &[usize]) -> (Vec<usize>, Vec<i64>) {
+    let nd = shape.len();
+    let out_shape: Vec<usize> = order.iter().map(|&o| shape[o]).collect();
+    let mut stride = vec![1usize; nd];
+    for k in (0..nd.saturating_sub(1)).rev() { stride[k] = stride[k + 1] * shape[k + 1]; }
+    let mut out = Vec::with_capacity(tags.len());
+    for o in 0..tags.len() {
+        let (mut rem, mut pos) = (o, 0usize);
+        for k in (0..nd).rev() { let c = rem % out_shape[k]; rem /= out_shape[k]; pos += c * stride[order[k]]; }
+        out.push(tags[pos]);
+    }
+    (out_shape, out)
+}
+
+fn native_steps(shape: &[usize], tags: &[i64], steps: &[Call]) -> Result<(Vec<usize>, Vec<i64>), ()> {
+    let mut cur = (shape.to_vec(), tags.to_vec());
+    for c in steps { let o = native_order(cur.0.len(), c)?; cur = native_gather(&cur.0, &cur.1, &o); }
+    Ok(cur)
+}
+fn native_text(r: &Result<(Vec<usize>, Vec<i64>), ()>) -> String { match r { Ok((s, e)) => format!("ok {}:{}", show_list(s), show_list(e)), Err(()) => "err".to_string() } }
+
+static ORACLE_VALIDATIONS: std::sync::atomic::AtomicUsize = std::sync::atomic::AtomicUsize::new(0);
+static NATIVE_ONLY: std::sync::atomic::AtomicUsize = std::sync::atomic::AtomicUsize::new(0);
+
+// ------------------------------------------------------------------------------------------------ executor
+
+fn parse_steps(text: &str) -> Option<Vec<Call>> {
+    if text == "-" { return Some(vec![]); }
+    let mut v = vec![];
+    for s in text.split('|') { let parts: Vec<&str> = s.split('=').collect(); v.push(Call::parse(parts[0], &parts[1..])?); }
+    Some(v)
+}
+
+/// what the real crate does: the i64 plain run as text; a difference on the Ok(array) receiver or on another element type is put
+/// in front (and then fails the comparison).  `all_types` = all nine images, otherwise u8 / f64(-0.0) / String.
+fn observe(shape: &[usize], tags: &[i64], steps: &[Call], all_types: bool) -> String {
+    let a: Array<i64> = Array::new(tags.to_vec(), shape.to_vec()).expect("harness: array literal");
+    let canon = run(&a, steps, false);
+    let obs = match &canon { Err(()) => "panic".to_string(), Ok(r) => { if let Ok(x) = r { if !consistent(x) { return "ok INCONSISTENT".into(); } } res_arr(r) } };
+    let ch = run(&a, steps, true);
+    let ch_text = match &ch { Err(()) => "panic".to_string(), Ok(r) => res_arr(r) };
+    let mut div = if ch_text != obs { Some(format!("RECEIVER-DIVERGENCE the call on Ok(array) gives `{}`", truncate(&ch_text, 300))) } else { None }
+        .or_else(|| image("u8", shape, tags, steps, &canon, tag_u8, |x, y| x == y))
+        .or_else(|| image("f64 (tag 0 = -0.0)", shape, tags, steps, &canon, tag_f64z, |x, y| x.to_bits() == y.to_bits()))
+        .or_else(|| image("String", shape, tags, steps, &canon, |t| t.to_string(), |x, y| x == y));
+    if all_types {
+        div = div.or_else(|| image("f64 special values", shape, tags, steps, &canon, special_f64, |x, y| x.to_bits() == y.to_bits()))
+        .or_else(|| image("f32 (tag 0 = -0.0)", shape, tags, steps, &canon, |t| if t == 0 { -0.0f32 } else { t as f32 }, |x, y| x.to_bits() == y.to_bits()))
+        .or_else(|| image("i8", shape, tags, steps, &canon, tag_i8, |x, y| x == y))
+        .or_else(|| image("u64 above 2^53", shape, tags, steps, &canon, |t| u64::MAX - (t.rem_euclid(1 << 40) as u64), |x, y| x == y))
+        .or_else(|| image("bool", shape, tags, steps, &canon, |t| t.rem_euclid(2) == 1, |x, y| x == y))
+        .or_else(|| image("char", shape, tags, steps, &canon, |t| char::from_u32(0x30 + t.rem_euclid(0x700) as u32).unwrap_or('?'), |x, y| x == y));
+    }
+    match div { Some(d) => format!("{d}; i64 plain run: {}", truncate(&obs, 300)), None => obs }
+}
+/// the i64 plain run only
+fn observe_plain(shape: &[usize], tags: &[i64], steps: &[Call]) -> String {
+    let a: Array<i64> = Array::new(tags.to_vec(), shape.to_vec()).expect("harness: array literal");
+    match run(&a, steps, false) { Err(()) => "panic".to_string(), Ok(r) => res_arr(&r) }
+}
+
+/// the answer one member must give: the model's full answer, or — `plan SHAPE|ORDER` — the native gather by the MODEL's axis
+/// order (which must be the native reference's order as well)
+fn wanted(shape: &[usize], tags: &[i64], steps: &[Call], member: &str) -> Result<String, String> {
+    let native = native_steps(shape, tags, steps);
+    if let Some(plan) = member.strip_prefix("plan ") {
+        let (psh, pord) = plan.split_once('|').ok_or("harness: malformed plan")?;
+        let (psh, pord) = (parse_usize_list(psh), parse_usize_list(pord));
+        if steps.len() != 1 { return Err("harness: a plan answers one call".into()); }
+        let nord = native_order(shape.len(), &steps[0]).map_err(|_| format!("ORACLE-DIVERGENCE the native reference refuses the call, the model's plan is {plan}"))?;
+        if nord != pord { return Err(format!("ORACLE-DIVERGENCE native axis order {:?}, the model's {:?}", nord, pord)); }
+        let (gs, ge) = native_gather(shape, tags, &pord);
+        if gs != psh { return Err(format!("ORACLE-DIVERGENCE native result shape {:?}, the model's {:?}", gs, psh)); }
+        NATIVE_ONLY.fetch_add(1, std::sync::atomic::Ordering::Relaxed);
+        Ok(format!("ok {}:{}", show_list(&gs), show_list(&ge)))
+    } else {
+        // every case the model answers in full validates the native reference
+        match class_of(member) {
+            "ok" => { if native_text(&native) != member { return Err(format!("ORACLE-DIVERGENCE native reference `{}`, model `{}`", truncate(&native_text(&native), 300), truncate(member, 300))); } }
+            "err" => { if native.is_ok() { return Err(format!("ORACLE-DIVERGENCE native reference accepts (`{}`), the model refuses", truncate(&native_text(&native), 300))); } }
+            _ => {}
+        }
+        ORACLE_VALIDATIONS.fetch_add(1, std::sync::atomic::Ordering::Relaxed);
+        Ok(member.to_string())
+    }
+}
+
+fn fnv(s: &str) -> u64 { s.bytes().fold(0xcbf29ce484222325u64, |h, b| (h ^ b as u64).wrapping_mul(0x100000001b3)) }
+
+/// a DIFFERENT shape of the same rank that a weak cache key could confuse with `s`: the (-1, +m) neighbour under the polynomial
+/// hashes with multiplier m, the reversed shape, two neighbouring lengths exchanged, a length plus 256
+fn partner_shape(s: &[usize], kind: u64) -> Option<Vec<usize>> {
+    let nd = s.len();
+    if nd < 2 { return None; }
+    let mut b = s.to_vec();
+    match kind % 8 {
+        k @ 0..=4 => { let m = [31usize, 33, 37, 131, 257][k as usize]; let p = (0..nd - 1).find(|&p| s[p] >= 2)?; b[p] -= 1; b[p + 1] += m; }
+        5 => b.reverse(),
+        6 => { let p = (0..nd - 1).find(|&p| s[p] != s[p + 1])?; b.swap(p, p + 1); }
+        _ => b[nd - 1] += 256,
+    }
+    if b == s || b.iter().product::<usize>() > 6000 { None } else { Some(b) }
+}
+
+thread_local! {
+    /// A-B-A across case lines: the previous case and its plain answer
+    static PREV: std::cell::RefCell<Option<(String, Vec<usize>, Vec<i64>, Vec<Call>, String)>> = const { std::cell::RefCell::new(None) };
+    static LINE_NO: std::cell::Cell<usize> = const { std::cell::Cell::new(0) };
+}
+
+fn mismatch(observed: String, detail: String) -> Option<Verdict> { Some(Verdict::Mismatch { observed, detail }) }
+
 fn exec(op: &str, args: &[&str], expected: &str) -> Option<Verdict> {
+    match op {
+        // last line: how often the native reference was validated against the model in this run
+        "audit" => {
+            let (v, h) = (ORACLE_VALIDATIONS.load(std::sync::atomic::Ordering::Relaxed), NATIVE_ONLY.load(std::sync::atomic::Ordering::Relaxed));
+            let text = format!("ok audit: native gather reference validated against the model's full answer on {v} cases of this run; {h} huge answers built by it from the model's axis order");
+            if expected != "ok audit" { return Some(compare_default(text, expected)); }
+            return if h > 0 && v < 1000 { mismatch(text, "the native reference was used without having been validated against the model on at least 1000 smaller cases".into()) } else { Some(Verdict::Match(text)) };
+        }
+        // huge ARR step: the model answers the axis order; elements by the native gather
+        "huge" => {
+            if args.len() != 2 { return None; }
+            let (shape, tags) = parse_arr_raw(args[0]);
+            let steps = parse_steps(args[1])?;
+            let want = match wanted(&shape, &tags, &steps, expected) { Ok(w) => w, Err(d) => return mismatch(observe_plain(&shape, &tags, &steps), d) };
+            let obs = observe(&shape, &tags, &steps, false);
+            if obs == want { return Some(Verdict::Match(format!("ok {}:… ({} elements, equal to the native gather by the model's axis order)", obs.split(':').next().unwrap_or("").trim_start_matches("ok "), tags.len()))); }
+            if class_of(&obs) == "err" && class_of(&want) == "err" { return Some(Verdict::Match(obs)); }
+            let at = obs.bytes().zip(want.bytes()).position(|(x, y)| x != y).unwrap_or(obs.len().min(want.len()));
+            let lo = at.saturating_sub(40);
+            return mismatch(truncate(&obs, 400), format!("differs from the expected answer at byte {at}: real `…{}`, expected `…{}`", truncate(obs.get(lo..).unwrap_or(""), 120), truncate(want.get(lo..).unwrap_or(""), 120)));
+        }
+        // pair ARRA ARRB step: on a FRESH thread A, B, A; on another fresh thread B, A, B — every run judged
+        "pair" => {
+            if args.len() != 3 { return None; }
+            let (ea, eb) = expected.split_once(" ; ")?;
+            let steps = parse_steps(args[2])?;
+            let ma = parse_arr_raw(args[0]); let mb = parse_arr_raw(args[1]);
+            let wa = match wanted(&ma.0, &ma.1, &steps, ea) { Ok(w) => w, Err(d) => return mismatch("-".into(), d) };
+            let wb = match wanted(&mb.0, &mb.1, &steps, eb) { Ok(w) => w, Err(d) => return mismatch("-".into(), d) };
+            for first_a in [true, false] {
+                let seq: Vec<(&'static str, (Vec<usize>, Vec<i64>), String)> = if first_a { vec![("first", ma.clone(), wa.clone()), ("second", mb.clone(), wb.clone()), ("first", ma.clone(), wa.clone())] }
+                    else { vec![("second", mb.clone(), wb.clone()), ("first", ma.clone(), wa.clone()), ("second", mb.clone(), wb.clone())] };
+                let st = steps.clone();
+                let res = std::thread::Builder::new().stack_size(64 << 20).spawn(move || {
+                    for (pos, (which, m, w)) in seq.iter().enumerate() {
+                        let obs = observe(&m.0, &m.1, &st, false);
+                        let same = obs == *w || (class_of(&obs) == "err" && class_of(w) == "err");
+                        if !same { return Some((format!("run {} of the thread ({which} array, shape {}): {}", pos + 1, show_list(&m.0), truncate(&obs, 500)), format!("expected `{}`", truncate(w, 500)))); }
+                    }
+                    None
+                }).ok()?.join();
+                match res {
+                    Ok(None) => {}
+                    Ok(Some((o, d))) => return mismatch(o, format!("back-to-back on a fresh thread in the order {}: {d}", if first_a { "first, second, first" } else { "second, first, second" })),
+                    Err(_) => return None,
+                }
+            }
+            return Some(Verdict::Match(format!("{wa} ; {}", truncate(&wb, 200))));
+        }
+        _ => {}
+    }
     let (shape, tags) = parse_arr_raw(args[0]);
     let steps: Vec<Call> = match op {
-        "chain" => { if args.len() != 2 { return None; }
-            if args[1] == "-" { vec![] } else { let mut v = vec![]; for s in args[1].split('|') { let parts: Vec<&str> = s.split('=').collect(); v.push(Call::parse(parts[0], &parts[1..])?); } v } }
+        "chain" => { if args.len() != 2 { return None; } parse_steps(args[1])? }
         _ => vec![Call::parse(op, &args[1..])?],
     };
-    let a = parse_arr_i64(args[0]);
-    let canon = run(&a, &steps, false);
-    let mut obs = match &canon { Err(()) => "panic".to_string(), Ok(r) => { if let Ok(x) = r { if !consistent(x) { return Some(compare_default("ok INCONSISTENT".into(), expected)); } } res_arr(r) } };
-    // a disagreement of the i64 plain run with the model is reported as such (most readable); otherwise:
-    if let Verdict::Mismatch { observed, detail } = compare_default(obs.clone(), expected) { return Some(Verdict::Mismatch { observed, detail }); }
-    // both receivers on i64 (full text), then every other element type on both receivers
-    let ch = run(&a, &steps, true);
-    let ch_text = match &ch { Err(()) => "panic".to_string(), Ok(r) => res_arr(r) };
-    let div = if ch_text != obs { Some(format!("RECEIVER-DIVERGENCE the call on Ok(array) gives `{}`", truncate(&ch_text, 300))) } else { None }
-        .or_else(|| image("u8", &shape, &tags, &steps, &canon, tag_u8, |x, y| x == y))
-        .or_else(|| image("f64 (tag 0 = -0.0)", &shape, &tags, &steps, &canon, tag_f64z, |x, y| x.to_bits() == y.to_bits()))
-        .or_else(|| image("f64 special values", &shape, &tags, &steps, &canon, special_f64, |x, y| x.to_bits() == y.to_bits()))
-        .or_else(|| image("f32 (tag 0 = -0.0)", &shape, &tags, &steps, &canon, |t| if t == 0 { -0.0f32 } else { t as f32 }, |x, y| x.to_bits() == y.to_bits()))
-        .or_else(|| image("i8", &shape, &tags, &steps, &canon, tag_i8, |x, y| x == y))
-        .or_else(|| image("u64 above 2^53", &shape, &tags, &steps, &canon, |t| u64::MAX - (t.rem_euclid(1 << 40) as u64), |x, y| x == y))
-        .or_else(|| image("bool", &shape, &tags, &steps, &canon, |t| t.rem_euclid(2) == 1, |x, y| x == y))
-        .or_else(|| image("String", &shape, &tags, &steps, &canon, |t| t.to_string(), |x, y| x == y))
-        .or_else(|| image("char", &shape, &tags, &steps, &canon, |t| char::from_u32(0x30 + t.rem_euclid(0x700) as u32).unwrap_or('?'), |x, y| x == y));
-    if let Some(d) = div { obs = format!("{d}; i64 plain run: {}", truncate(&obs, 300)); }
-    Some(compare_default(obs, expected))
+    // the i64 plain run first: a disagreement with the model is reported as such (most readable)
+    let plain = observe_plain(&shape, &tags, &steps);
+    if let Verdict::Mismatch { observed, detail } = compare_default(plain.clone(), expected) { PREV.with(|p| *p.borrow_mut() = None); return Some(Verdict::Mismatch { observed, detail }); }
+    // the native reference is validated against the model's answer on this case
+    if let Err(d) = wanted(&shape, &tags, &steps, expected) { return mismatch(plain, d); }
+    // both receivers and every other element type
+    let obs = observe(&shape, &tags, &steps, true);
+    let v = compare_default(obs, expected);
+    if let Verdict::Mismatch { .. } = v { return Some(v); }
+    let line = format!("{op} {}", args.join(" "));
+    let n = tags.len();
+    // A-B-A inside the case: the same call on a partner shape a weak cache key could confuse with this one (judged by the native
+    // reference), then this case again
+    if n >= 2 && n <= 700 {
+        // the same shape with the values reversed (same multiset / checksum): a cache keyed by a fingerprint of the values
+        let rt: Vec<i64> = tags.iter().rev().copied().collect();
+        let (got, want) = (observe_plain(&shape, &rt, &steps), native_text(&native_steps(&shape, &rt, &steps)));
+        if !(got == want || (class_of(&got) == "err" && want == "err")) {
+            return mismatch(format!("A-B-A, the same call on the same shape with the values reversed: {}", truncate(&got, 400)), format!("native reference: `{}`", truncate(&want, 400)));
+        }
+    }
+    if n <= 700 {
+        if let Some(bs) = partner_shape(&shape, fnv(&line)) {
+            let bn: usize = bs.iter().product();
+            let bt: Vec<i64> = (0..bn as i64).map(|t| t - (bn / 2) as i64).collect();
+            let got = observe_plain(&bs, &bt, &steps);
+            let want = native_text(&native_steps(&bs, &bt, &steps));
+            if !(got == want || (class_of(&got) == "err" && want == "err")) {
+                return mismatch(format!("A-B-A, the same call on the partner shape {} directly after this case: {}", show_list(&bs), truncate(&got, 400)), format!("native reference (validated against the model on every case of this run): `{}`", truncate(&want, 400)));
+            }
+            let again = observe_plain(&shape, &tags, &steps);
+            if again != plain { return mismatch(format!("STATE-DIVERGENCE this case again, after the same call on shape {}: {}", show_list(&bs), truncate(&again, 400)), format!("first answer `{}`", truncate(&plain, 400))); }
+        }
+    }
+    // A-B-A across case lines: for a third of the lines the previous case is executed again and must repeat its answer
+    let no = LINE_NO.with(|c| { c.set(c.get() + 1); c.get() });
+    let prev = PREV.with(|p| p.borrow_mut().take());
+    if n <= 3000 && no % 3 != 0 { PREV.with(|p| *p.borrow_mut() = Some((line, shape.clone(), tags.clone(), steps.clone(), plain.clone()))); }
+    if let Some((pl, ps, pt, pst, pans)) = prev {
+        if no % 3 == 0 {
+            let again = observe_plain(&ps, &pt, &pst);
+            if again != pans { return mismatch(format!("STATE-DIVERGENCE re-run of the previous case: {}", truncate(&again, 400)), format!("A-B-A: the previous case `{}` executed again after this case answers differently; first `{}`", truncate(&pl, 200), truncate(&pans, 400))); }
+        }
+    }
+    Some(v)
 }
 
 /// non-trivial: at least two axes longer than one (a permutation can then really reorder elements)
-fn nontrivial(_op: &str, args: &[&str]) -> bool { parse_arr_raw(args[0]).0.iter().filter(|&&d| d > 1).count() >= 2 }
+fn nontrivial(op: &str, args: &[&str]) -> bool { op != "audit" && parse_arr_raw(args[0]).0.iter().filter(|&&d| d > 1).count() >= 2 }
 
 fn main() {
     harness_main(Spec { prop: "C06", gen, exec, nontrivial, hang_secs: 20,
-        rule: "exhaustive: every shape rank<=4 len<=3 (+ 15 shapes with zero-length axes incl. [0,0],[0,3],[2,0,3]) x every permutation of its axes x sign spellings (all 2^rank for rank<=3 / thorough; 3 patterns for rank 4 quick); every (i,j) x 4 spellings for swapaxes / single-axis moveaxis / rollaxis(+None); every ordered pair of sources x destinations for 2-axis moveaxis, sampled 3+-axis lists; malformed stream (axis = ndim, ndim+1, -ndim-1, +-1000, repeated axes, wrong lengths); chains (permutation then inverse, same call twice, roll/move back, error passed on); seeded random rank 5 (6 in thorough) len<=4. Sizes: big_shapes() (axis lengths 7-17 in every position, counts >256/>1024/>4096 up to 70x70), every matrix r,c in 7..=17 x 11 spellings of the flip, matrices around 32 (thorough: 64) and long thin ones, rank 3 over {1,2,8,9,17}^3, random rank 2-5 with long axes, round-trip chains on big shapes. EVERY case runs on i64 tags (compared with the model) and on the u8, i8, u64>2^53, f64(-0.0), f32(-0.0), f64 special values (NaN, subnormal, +-0, inf; bit-wise), bool, String, char images, each on the plain AND the Ok(array) receiver. Tag arrays: shape AND every element compared. non-trivial = >=2 axes longer than 1" });
+        rule: "exhaustive: every shape rank<=4 len<=3 (+ 15 shapes with zero-length axes incl. [0,0],[0,3],[2,0,3]) x every permutation of its axes x sign spellings (all 2^rank for rank<=3 / thorough; 3 patterns for rank 4 quick); every (i,j) x 4 spellings for swapaxes / single-axis moveaxis / rollaxis(+None); every ordered pair of sources x destinations for 2-axis moveaxis, sampled 3+-axis lists; malformed stream (axis = ndim, ndim+1, -ndim-1, +-1000, repeated axes, wrong lengths); chains (permutation then inverse, same call twice, roll/move back, error passed on); seeded random rank 5 (6 in thorough) len<=4. Sizes: big_shapes() (axis lengths 7-17 in every position, counts >256/>1024/>4096 up to 70x70), every matrix r,c in 7..=17 x 11 spellings of the flip, matrices around 32 (thorough: 64) and long thin ones, rank 3 over {1,2,8,9,17}^3, random rank 2-5 with long axes, round-trip chains on big shapes. EVERY case runs on i64 tags (compared with the model) and on the u8, i8, u64>2^53, f64(-0.0), f32(-0.0), f64 special values (NaN, subnormal, +-0, inf; bit-wise), bool, String, char images, each on the plain AND the Ok(array) receiver. Tag arrays: shape AND every element compared. PART 2: a harness-native reference (axis order from the documented meaning + gather by coordinates) is validated against the model's full answer on EVERY case; huge shapes (`huge`: huge_shapes() + 7 more, 16 384..140 000 elements, every rotation order, swaps, moves, rolls, non-rotations): the model answers the axis order (read off its own transpose on the all-2 stand-in of the same rank), elements by the validated native gather (`audit` demands >= 1000 validations); hidden state: `pair` = two shapes colliding under weak keys (polynomial hashes with multipliers 31,33,37,131,257; equal count; permuted lengths; lengths + 256 / + 65536) on a fresh thread A B A, then on another fresh thread B A B; every case <= 700 elements also runs A-B-A inside exec against a partner shape of that kind (partner judged by the native reference), and for a third of the lines the previous line is re-executed; every axis length 1..300 leading and non-leading; axis arguments c+2^8, c+2^16, c+2^32, 3*2^32 (must be refused), each refusal followed by a valid call; ranks 4..8 with 3..6-entry moveaxis lists (every ordering of three destinations), mixed spellings. non-trivial = >=2 axes longer than 1" });
 }
